@@ -386,4 +386,11 @@ theorem isMin_root {less : α → α → Bool} (sw : StrictWeak less) {a : List 
     obtain ⟨j, hj⟩ := List.getElem?_of_mem hy
     exact heapInv_root_min sw h hr j y hj
 
+/-! ## a concrete strict weak order for the non-vacuity examples -/
+
+def ltN : Nat → Nat → Bool := fun a b => decide (a < b)
+
+theorem ltN_sw : StrictWeak ltN :=
+  ⟨by intro a; simp [ltN], by intro a b c; simp [ltN]; omega, by intro a b c; simp [ltN]; omega⟩
+
 end Juniper.Proofs.Heap
